@@ -8,7 +8,7 @@
 (***************************************************************************)
 EXTENDS Ops, JsonText, Path, PathText, Json, IOUtils, TLC
 
-SYS == INSTANCE System WITH ChainLen <- 0, StartSet <- "none", Walkers <- 0, reg <- <<>>, buf <- <<>>, hist <- <<>>, start <- <<>>, w <- 0
+SYS == INSTANCE System WITH ChainLen <- 0, StartSet <- "none", Walkers <- 0, reg <- <<>>, buf <- <<>>, hist <- <<>>, start <- <<>>, w <- 0, rep <- <<>>
 
 Rec == ndJsonDeserialize(IOEnv.TRACE)
 
@@ -361,26 +361,35 @@ SyntaxOk(ev, kind) ==
 (* from call to call by the harness and must equal Encode(register) at every step, and the *)
 (* shared buffer must be the concatenation of the results so far                            *)
 RECURSIVE ChainFrom(_, _, _, _, _)
+\* returns the concatenation of everything appended, or <<-1>> when a step is rejected
 ChainFrom(steps, outs, k, rg, bufSoFar) ==
-  IF k > Len(steps) THEN TRUE
+  IF k > Len(steps) THEN bufSoFar
   ELSE LET s == steps[k]
            r == SYS!ApplyStep(s, rg)
            o == outs[k]
        IN IF r.t = "doc"
-          THEN /\ Has(o, "t") /\ o.t = "bytes"
-               /\ Tup(o.v) = Tup(Encode(r.v))
-               /\ Tup(o.buf) = Tup(bufSoFar \o Encode(r.v))
-               /\ IsCanonical(o.v)
-               /\ ChainFrom(steps, outs, k + 1, [rg EXCEPT ![s.dst] = r.v], bufSoFar \o Encode(r.v))
-          ELSE /\ Has(o, "t") /\ o.t = r.t
-               /\ (r.t = "err" /\ s.f # "select" => o.e = r.e)
-               /\ Tup(o.buf) = Tup(bufSoFar)
-               /\ ChainFrom(steps, outs, k + 1, rg, bufSoFar)
+          THEN IF /\ Has(o, "t") /\ o.t = "bytes"
+                  /\ Tup(o.v) = Tup(Encode(r.v))
+                  /\ o.buflen = Len(bufSoFar) + Len(o.v)
+                  /\ IsCanonical(o.v)
+               THEN ChainFrom(steps, outs, k + 1, [rg EXCEPT ![s.dst] = r.v], bufSoFar \o o.v)
+               ELSE <<-1>>
+          ELSE IF r.t = "text"
+          \* a rendering: valid JSON denoting the register; the register now holds what that text denotes
+          THEN IF /\ Has(o, "t") /\ o.t = "text" /\ o.buflen = Len(bufSoFar)
+                  /\ Parse(o.v, TRUE) # Err /\ Denotes(Parse(o.v, TRUE), r.v) # "no" /\ o.v[1] # 32
+               THEN ChainFrom(steps, outs, k + 1, [rg EXCEPT ![s.dst] = r.v], bufSoFar)
+               ELSE <<-1>>
+          ELSE IF /\ Has(o, "t") /\ o.t = r.t
+                  /\ (r.t = "err" /\ s.f # "select" => o.e = r.e)
+                  /\ o.buflen = Len(bufSoFar)
+               THEN ChainFrom(steps, outs, k + 1, rg, bufSoFar)
+               ELSE <<-1>>
 ChainOk(ev) ==
   /\ ev.res.t = "chain"
   /\ \A i \in 1..Len(ev.start) : Tup(ev.res.start[i]) = Tup(Encode(ev.start[i]))
   /\ Len(ev.res.outs) = Len(ev.steps)
-  /\ ChainFrom(ev.steps, ev.res.outs, 1, ev.start, <<>>)
+  /\ Tup(ChainFrom(ev.steps, ev.res.outs, 1, ev.start, <<>>)) = Tup(ev.res.buf)
 
 ----------------------------------------------------------------------------
 Accept(ev) ==
